@@ -75,10 +75,14 @@ func vResume2(p *vParser, buf []byte, start int, i int) {
 // vChain: every chunk schedule of buf[start:] in one run (cuts are symbolic
 // booleans): at every visited cut the resumed object 0 agrees with a fresh
 // one-shot parse (object 1, reset before each use) of the same prefix.
-func vChain(p *vParser, buf []byte, start int) {
+func vChain(p *vParser, buf []byte, start int) { vChainFrom(p, buf, start, start+1) }
+
+// vChainFrom: as vChain, the first visited cut is at or after minCut (the
+// concrete prefix of a template is delivered in one piece).
+func vChainFrom(p *vParser, buf []byte, start int, minCut int) {
 	n := len(buf)
 	offs, e := start, p.more
-	for j := start + 1; j <= n; j++ {
+	for j := minCut; j <= n; j++ {
 		if j == n || vBool() {
 			offs, e = p.parse(0, buf[:j], offs)
 			p.reset(1)
